@@ -1,1 +1,69 @@
-//! Hooks for property C14 (empty until needed).
+//! Hooks for property C14 (restore yields exactly the snapshot and never writes outside the target).
+//!
+//! * `SparseRestore` is not nameable through the public API (only as the field type of
+//!   `RestoreOptions::sparse`), so it is re-exported here.
+//! * `save_trees` stores arbitrary `Tree` blobs (nodes with any raw `name`) through the
+//!   ordinary tree packer + indexer, so that a harness can craft snapshots whose trees contain
+//!   hostile node names (`..`, absolute paths, names with separators).
+//! * `snapshot_for_tree` saves a snapshot file pointing to a given root tree.
+
+pub use crate::commands::restore::SparseRestore;
+
+use crate::{
+    backend::decrypt::DecryptWriteBackend,
+    blob::{
+        BlobId, BlobType,
+        packer::{PackSizer, Packer},
+        tree::{Tree, TreeId},
+    },
+    error::{ErrorKind, RusticError, RusticResult},
+    index::{ReadIndex, indexer::Indexer},
+    repofile::SnapshotFile,
+    repository::{IndexedTree, Repository},
+};
+
+/// Save the given trees as tree blobs (packed and indexed like `merge` does); returns their ids.
+/// The in-memory index of `repo` is not updated: re-open the repository afterwards.
+pub fn save_trees<S: IndexedTree>(
+    repo: &Repository<S>,
+    trees: &[Tree],
+) -> RusticResult<Vec<TreeId>> {
+    let index = repo.index();
+    let indexer = Indexer::new(repo.dbe().clone()).into_shared();
+    let pack_sizer = PackSizer::from_config(
+        repo.config(),
+        BlobType::Tree,
+        index.total_size(BlobType::Tree),
+    );
+    let packer = Packer::new(
+        repo.dbe().clone(),
+        BlobType::Tree,
+        indexer.clone(),
+        pack_sizer,
+    )?;
+    let mut ids = Vec::new();
+    let mut seen = std::collections::BTreeSet::new();
+    for tree in trees {
+        let (chunk, id) = tree.serialize().map_err(|err| {
+            RusticError::with_source(ErrorKind::Internal, "Failed to serialize tree.", err)
+        })?;
+        if !index.has_tree(&id) && seen.insert(id) {
+            packer.add(chunk.into(), BlobId::from(*id))?;
+        }
+        ids.push(id);
+    }
+    _ = packer.finalize()?;
+    indexer.write().unwrap().finalize()?;
+    Ok(ids)
+}
+
+/// Save a snapshot whose root tree is `tree`; returns the stored snapshot (with its id).
+pub fn snapshot_for_tree<S: IndexedTree>(
+    repo: &Repository<S>,
+    tree: TreeId,
+) -> RusticResult<SnapshotFile> {
+    let mut snap = SnapshotFile::default();
+    snap.tree = tree;
+    snap.id = repo.dbe().save_file(&snap)?.into();
+    Ok(snap)
+}
